@@ -109,13 +109,14 @@ def jsonModel (rows : List J) (keep : List Bool := []) : String :=
 def linesSchema : String := "F2 x6e756d626572 Int x74657874 Str"
 
 /-- `lines <s<sephex>|-> c<contenthex>`; the model scans with reads of 4096 bytes (any window-growth schedule
-    gives the same tokens: `Octo.C23.lines_split`; one byte per read is quadratic on big files) -/
+    gives the same tokens: `Octo.C23.lines_split`; one byte per read is quadratic on big files).
+    `none` = the scan failed (`ErrTooLong`: a piece does not fit the 64 KiB buffer) -/
 def linesTokens (sepTok contentTok : String) : Option (List Bytes) :=
   let content := parseHexBytes (contentTok.drop 1).toString
   let sched := List.replicate (content.length / 4096 + 1) 4095
   let res :=
-    if sepTok == "-" then scanAll scanLines content sched
-    else scanAll (splitFixed (parseHexBytes (sepTok.drop 1).toString)) content sched
+    if sepTok == "-" then scanAll scanLines maxScanTokenSize content sched
+    else scanAll (splitFixed (parseHexBytes (sepTok.drop 1).toString)) maxScanTokenSize content sched
   match res with
   | .tokens ts => some ts
   | _ => none
@@ -128,7 +129,7 @@ def linesModel (sepTok contentTok : String) : String :=
   if sepTok == "s" then "err:create"      -- an empty separator is rejected
   else match linesTokens sepTok contentTok with
     | some ts => "ok " ++ linesSchema ++ encodeRecs (numberFrom 0 ts)
-    | none => "model-error"
+    | none => "err:run " ++ linesSchema
 
 /-- model output for the datasource ops shared by C23 and C24 -/
 def modelFiles (toks : List String) : Option String :=
